@@ -55,6 +55,20 @@ async def run_bt_async(D: dict, suspend: str = "sleep0", seed: int = 0, dup_subs
     for s in range(1, D["ns"] + 1):
         evs = [Ev(Z(T(t)), 100 * s + k, s) for k, t in enumerate(D["evs"][s - 1], start=1)]
         events.extend({"id": e.vid, "src": s, "when": tick(e.when)} for e in evs)
+        if evs and rng.random() < 0.25:
+            # the source is fed by its producer: main() pushes the events when the run starts (a replaying producer)
+            class Feeder(bsevent.Producer):
+                def __init__(self, items):
+                    self.items, self.src = items, None
+
+                async def main(self):
+                    for e in self.items:
+                        self.src.push(e)
+            fd = Feeder(list(evs))
+            src = bsevent.FifoQueueEventSource(producer=fd)
+            fd.src = src
+            sources.append(src)
+            continue
         sources.append(bsevent.FifoQueueEventSource(events=evs))
         if evs and rng.random() < 0.3:
             evs.clear()          # the caller's list is the caller's: reusing / emptying it afterwards must not affect the source
@@ -170,8 +184,22 @@ async def run_bt_async(D: dict, suspend: str = "sleep0", seed: int = 0, dup_subs
         access yields a new, equal method object; partials and callable objects have no __name__ / __qualname__."""
         def __init__(self, fn):
             self._fn = fn
-            kind = rng.choice(["method", "method", "callable", "partial", "sync_first"])
-            if kind == "sync_first" and hasattr(fn, "sync_first"):
+            kind = rng.choice(["method", "method", "callable", "partial", "sync_first", "future", "awaitable"])
+            if kind == "future":
+                # a plain callable returning a Future (asyncio.ensure_future / gather / shield): an awaitable, not a coroutine
+                # (its first segment runs when it is called -- "started in subscription order" is about the calls -- the
+                # rest is the Future it returns)
+                self.on_event = (lambda event: asyncio.ensure_future(fn.sync_first(event))) if hasattr(fn, "sync_first") \
+                    else (lambda event: asyncio.ensure_future(fn(event)))
+            elif kind == "awaitable":
+                class Awaitable_:
+                    def __init__(self, event):
+                        self.event = event
+
+                    def __await__(self):
+                        return fn(self.event).__await__()
+                self.on_event = Awaitable_
+            elif kind == "sync_first" and hasattr(fn, "sync_first"):
                 self.on_event = fn.sync_first
             elif kind == "callable":
                 outer = self
